@@ -82,6 +82,7 @@ def setup_frontend():
     import global_config
     global_config.ClientConfig.SERVER_URI = "ws://simhost:8001"
     import frontend.server.connector as conn
+    import frontend.client.services.service  # noqa: F401  (creates its logger and log file now, outside any run)
     assert os.path.realpath(conn.__file__).startswith(REPO), conn.__file__
     _state["frontend"] = True
     return seam
